@@ -97,7 +97,13 @@ def write_traceback(logger=None, exc_info=None, _extract=True):
     if exc_info is None:
         exc_info = sys.exc_info()
     typ, exception, tb = exc_info
-    traceback = "".join(_traceback_no_io.format_exception(typ, exception, tb))
+    try:
+        traceback = "".join(_traceback_no_io.format_exception(typ, exception, tb))
+    except:
+        # Formatting consults the exception object (e.g. its truth value),
+        # which application-defined exceptions can make fail; logging must
+        # not raise because of what is being logged.
+        traceback = "eliot: unknown, formatting the traceback raised exception"
     _writeTracebackMessage(logger, typ, exception, traceback, _extract)
 
 
